@@ -43,7 +43,7 @@ func faultKinds(typ string) []string {
 	if typ == "panos" || typ == "nsx" {
 		return []string{"http-500", "http-403", "http-403-empty", "http-502-empty", "close", "badxml", "status-error", "stall"}
 	}
-	return []string{"error", "garbage", "close", "noecho", "stall"}
+	return []string{"error", "garbage", "close", "noecho", "stall", "die-before"}
 }
 
 func buildC11(c *c11Case) *liveCase {
@@ -120,7 +120,7 @@ func checkC11(tier, replay string) int {
 	rep := ev.New(env, "fault_enumeration")
 	rep.Rule = "Compare runs for {asa, ios, linux, panos, nsx} x {drc -C, do-approve compare} x 3 scenarios with non-empty differences x " +
 		"variant {healthy, marker absent, wrong hostname, unknown interface, banner not configured, ASA without enable password whose 'enable' asks to define one, other spellings of the compare verb/flag (Compare, COMPARE, --compare, -qC, --compare=true), drc -C without -L / with -q / both} without fault, and for the healthy variant " +
-		"a fault of kind {error text, unexpected output, connection close, wrong echo, stall | HTTP 500, 403, close, malformed body, status=error, stall} " +
+		"a fault of kind {error text, unexpected output, connection close, wrong echo, stall, death of the ssh client while a prompt is still on its way | HTTP 500, 403, close, malformed body, status=error, stall} " +
 		"at every ordinal position of the dialogue of the reference run. Oracle: zero config-change and zero save/commit events in the simulator transcript " +
 		"(ASA 'terminal width 511' is a session setting). Non-trivial = the reference compare of the scenario reports differences; distinct = distinct (case, fault). " +
 		"quick: stall faults at every 4th position only; thorough: all."
@@ -206,7 +206,7 @@ func checkC11(tier, replay string) int {
 			}
 			for ord := 1; ord <= steps[i]; ord++ {
 				for _, kind := range faultKinds(k.typ) {
-					if kind == "stall" && tier == "quick" && (ord+i+int(env.Seed))%4 != 0 {
+					if (kind == "stall" || kind == "die-before") && tier == "quick" && (ord+i+int(env.Seed))%4 != 0 {
 						continue
 					}
 					cases = append(cases, &c11Case{Type: k.typ, FrontEnd: k.fe, Scenario: k.sc, Variant: "healthy",
